@@ -58,17 +58,17 @@ TABLE = {
     "C08": (
         "property-based identity checks between result fields + metamorphic masked-garbage twins",
         "For every analysis entry point and generated data sets with masked points carrying garbage: frequencies = unmasked input, residual and chi-squared identities, impedances = circuit impedance, bit-identical results for twins that differ only on masked points, inputs unmodified.",
-        "Small option sets per entry point; identities at rel 1e-12/1e-9.",
+        "Small option sets per entry point; identities at rel 1e-12/1e-9. An analysis that raises returns no result: counted and labelled here, judged by C18.",
     ),
     "C09": (
         "metamorphic property-based testing (impedance scaling, frequency scaling, order reversal)",
         "Generated noisy spectra x test kinds x representations x options are run on the original and on rescaled/reversed data; residuals and chi-squared must agree and fitted quantities rescale.",
-        "Fixed num_RC, no extension optimisation; tolerances (abs 1e-5 + rel 1e-4 of max |residual|) from calibration on the repaired tree.",
+        "Fixed num_RC, no extension optimisation; tolerances (abs 1e-5 + rel 1e-4 of max |residual|) from calibration on the repaired tree. The unit dependence of the cnls implementation is known finding F38 (its cases are excluded from the scaling clauses, not from the chi-squared identity).",
     ),
     "C10": (
         "property-based statistical testing against frozen calibrated bands",
-        "Bundled mock circuits and random ladders x noise levels x drawn RNG seeds through the default automatic test: estimated noise within a frozen band of the injected noise, suggested num_RC inside reported limits, drift-corrupted twin has a much larger chi-squared.",
-        "Bands ([0.3, 5] noise ratio, drift chi-squared ratio >= 3 at sigma <= 0.03 %) calibrated once on the unchanged tree with a wide safety factor and frozen; detects gross mis-calibration only.",
+        "Bundled mock circuits and random ladders x noise levels x drawn RNG seeds through the default automatic test: estimated noise within a frozen band of the injected noise (judged as a rate over the run), suggested num_RC inside reported limits, drift-corrupted twin has a much larger chi-squared.",
+        "Bands calibrated once on the unchanged tree (1516 runs) with a wide safety factor and frozen: the noise clause is a rate (at most max(2, 1.5 %) of the runs outside [0.3, 5] x the injected level; 1 of 1516 observed), the drift clause a per-pair chi-squared ratio >= 2 at sigma <= 0.03 % (minimum observed 4.3); detects gross mis-calibration only.",
     ),
     "C11": (
         "property-based testing with analytic oracles (constant-phase spectra) and metamorphic relations (scaling, zero-weight points)",
@@ -102,7 +102,7 @@ TABLE = {
     ),
     "C17": (
         "schedule-controlled property-based testing (FakePool with Hypothesis-drawn completion orders) + real multiprocessing repeats",
-        "Fan-out entry points are run with a harness-owned pool that delivers results in generated permutations, and with real pools of 1..16 workers with injected delays; every result field must be bit-identical to the serial reference. Mock data bit-identical per seed.",
+        "Fan-out entry points are run with a harness-owned pool that delivers results in generated permutations, and with real pools of 1..16 workers with injected delays (the requested pool size is drawn under the harness-owned pool too); every result field must be bit-identical to the serial reference. Mock data bit-identical per seed.",
         "Completion order is the only schedule-dependent input of these code paths (pure worker functions, results gathered in the parent); real OS schedules are sampled.",
     ),
     "C18": (
